@@ -250,6 +250,10 @@ def run_splice(case):
     wav, segw = mk_wav(samples, width, rate), mk_wav(seg, width, rate)
     tg = p.Textgrid(0, dur)
     ents = [[i / rate, j / rate, l] for i, j, l in case["intervals"]]
+    if case.get("same_label") and not case["align"]:  # (with alignment, boundaries on the insertion time are moved to the crossing)
+        for e, (i, j, l) in zip(ents, case["intervals"]):
+            if j <= case["insert"]:
+                e[2] = "SPLICE"  # an earlier interval that happens to carry the label the new one gets
     tg.addTier(p.IntervalTier("target", [p.Interval(*e) for e in ents], 0, dur))
     pts = [[i / rate, l] for i, l in case["points"]]
     t_ins = case["insert"] / rate
@@ -302,7 +306,12 @@ def run_splice(case):
     if res["names"] != before["names"]:
         raise Violation("tier-order", what)
     tt = res["tiers"][0]["entries"]
-    new = [e for e in tt if e[2] == "SPLICE"]
+    # entries that already carry the new label and end by the insertion point stay what they are
+    old_same_label = [e for e in before["tiers"][0]["entries"] if e[2] == "SPLICE"]
+    for e in old_same_label:
+        if e not in tt:
+            raise Violation("earlier-entry-changed", f"{what}: {e} (ends by the insertion point, labelled like the new interval) not in result tier {tt}")
+    new = [e for e in tt if e[2] == "SPLICE" and e not in old_same_label]
     if len(new) != 1:
         raise Violation("new-interval", f"{what}: {len(new)} intervals labelled SPLICE in {tt}")
     ins_len = len(new_audio.frames) // width - (n - (0 if t_stop is None else 0))
@@ -359,6 +368,8 @@ def run_splice(case):
                 cl.add("second_splice_beyond_original_duration")
     if near:
         cl.add("entry_ends_one_ulp_before_insertion")
+    if old_same_label:
+        cl.add("earlier_entry_labelled_like_the_new_one")
     if len({i for i, _ in case["points"]}) < len(case["points"]):
         cl.add("coinciding_points")
     if any(i == case["insert"] for i, _ in case["points"]):
@@ -366,7 +377,7 @@ def run_splice(case):
     # entry counts: nothing before the edit may vanish (checked above); labels of every tier survive unless erased
     if t_stop is None:
         for bt, at in zip(before["tiers"], res["tiers"]):
-            want = sorted(e[-1] for e in bt["entries"])
+            want = sorted(e[-1] for e in bt["entries"] if e[-1] != "SPLICE")
             got = sorted(e[-1] for e in at["entries"] if e[-1] != "SPLICE")
             if want != got:
                 raise Violation("labels-changed", f"{what}: tier {bt['name']}: labels {want} became {got}")
@@ -451,7 +462,7 @@ def splice_cases(draw):
             stop = None
     return {"width": width, "rate": rate, "samples": s, "segment": seg, "intervals": ivs, "points": pts,
             "insert": ins, "stop": stop, "align": draw(st.booleans()), "second": draw(st.one_of(st.none(), st.integers(0, 19))),
-            "near": draw(st.booleans())}
+            "near": draw(st.booleans()), "same_label": draw(st.integers(0, 2)) == 0}
 
 
 CHECKS = [
